@@ -558,6 +558,7 @@ pred isLiveMsg(l Log, m message.Message) :=
 iface Log.NextOffset
     requires absWf(self)
     ensures err == nil ==> ret0 == gNext[self]
+    ensures[errs] err != nil ==> ioerr(err)
 
 iface Log.Consume
     requires absWf(self) && maxCount >= 1
@@ -572,6 +573,8 @@ iface Log.Consume
     ensures[nogap_run]    err == nil ==> forall j, o int64 :: 0 <= j && j < len(ret1) - 1 && gLive[self][o] && ret1[j].Offset < o ==> ret1[j+1].Offset <= o
     ensures[nogap_empty]  err == nil && len(ret1) == 0 && !relative(offset) ==> forall o int64 :: gLive[self][o] ==> o < offset
     ensures[empty_log]    err == nil && len(ret1) == 0 && offset == message.OffsetOldest ==> forall o int64 :: !gLive[self][o]
+    // a consume at a relative offset or at an offset up to NextOffset fails only with errors of the environment
+    ensures[errs]         err != nil && (relative(offset) || (0 <= offset && offset <= gNext[self])) ==> ioerr(err)
 
 // ---------------------------------------------------------------- FindByOffset (C15)
 
@@ -582,10 +585,12 @@ func FindByOffset
     ensures[exact]  err == nil && before != message.OffsetOldest ==>
                         forall o int64 :: has(ret0, o) <==> gLive[l][o] && o < ite(before == message.OffsetNewest, gNext[l], before)
     ensures[nonnil] err == nil ==> ret0 != nil
+    // the selection fails only when the log or the context fails
+    ensures[fails]  err != nil ==> ioerr(err)
     loop 1
       invariant[bound]  before == ite(old(before) == message.OffsetNewest, gNext[l], old(before)) && maxOffset == min(gNext[l], before)
       invariant[nonnil] offsets != nil && old(before) != message.OffsetOldest
-      invariant[cursor] offset == message.OffsetOldest || offset >= 0
+      invariant[cursor] offset == message.OffsetOldest || (offset >= 0 && offset <= gNext[l])
       invariant[set]    forall o int64 :: has(offsets, o) <==> gLive[l][o] && o < before && offset != message.OffsetOldest && o < offset
     loop 2
       invariant[idx]    -1 <= rangeindex && rangeindex < len(msgs)
@@ -599,6 +604,7 @@ func FindByOffset
 iface Log.Stat
     requires absWf(self)
     ensures err == nil ==> ret0.Messages == gCount[self] && ret0.Size == gTotal[self]
+    ensures[errs] err != nil ==> ioerr(err)
 
 func FindByCount
     requires absWf(l)
@@ -606,9 +612,10 @@ func FindByCount
     ensures[prefix] err == nil && ret0 != nil ==> livePrefix(l, ret0)
     // exactly as many as needed to leave `max` messages
     ensures[count]  err == nil && gCount[l] > max && max >= 0 ==> ret0 != nil && len(ret0) == gCount[l] - max
+    ensures[fails]  err != nil ==> ioerr(err)
     loop 1
       invariant[nonnil]  offsets != nil && gCount[l] > max && maxOffset == gNext[l]
-      invariant[cursor]  offset == message.OffsetOldest || offset >= 0
+      invariant[cursor]  offset == message.OffsetOldest || (offset >= 0 && offset <= gNext[l])
       invariant[budget]  toRemove >= 0 && len(offsets) + toRemove == gCount[l] - max
       invariant[prefix]  livePrefix(l, offsets)
       invariant[set]     toRemove > 0 ==> (forall o int64 :: has(offsets, o) <==> gLive[l][o] && offset != message.OffsetOldest && o < offset)
@@ -627,6 +634,7 @@ iface Log.OffsetByTime
     ensures[hit]      err == nil ==> gLive[self][ret0] && gMicro[self][ret0] >= micro(start)
     ensures[minimal]  err == nil ==> forall o int64 :: gLive[self][o] && gMicro[self][o] >= micro(start) ==> ret0 <= o
     ensures[notfound] is(err, ErrNotFound) ==> forall o int64 :: gLive[self][o] ==> gMicro[self][o] < micro(start)
+    ensures[errs]     err != nil ==> is(err, ErrNotFound) || is(err, ErrNoIndex) || ioerr(err)
 
 // message times never decrease with offset
 pred absMono(l Log) :=
@@ -639,10 +647,11 @@ func FindByAge
     ensures[notnewer] err == nil ==> forall o int64 :: has(ret0, o) ==> gMicro[l][o] <= micro(before)
     // with non-decreasing times nothing older is left
     ensures[noneolder] err == nil && absMono(l) ==> forall o int64 :: gLive[l][o] && gMicro[l][o] < micro(before) ==> has(ret0, o)
+    ensures[fails]    err != nil ==> ioerr(err)
     loop 1
       invariant[nonnil]  offsets != nil && maxOffset <= gNext[l]
       invariant[bound]   absMono(l) ==> (forall o int64 :: gLive[l][o] && maxOffset <= o ==> gMicro[l][o] >= micro(before))
-      invariant[cursor]  offset == message.OffsetOldest || offset >= 0
+      invariant[cursor]  offset == message.OffsetOldest || (offset >= 0 && offset <= gNext[l])
       invariant[notnewer] forall o int64 :: has(offsets, o) ==> gMicro[l][o] <= micro(before)
       invariant[set]     forall o int64 :: has(offsets, o) <==> gLive[l][o] && offset != message.OffsetOldest && o < offset
     loop 2
@@ -666,6 +675,7 @@ spec sumSize(l Log, s map[int64]bool) int64
 func FindBySize
     requires absWf(l)
     ensures[none]    gTotal[l] < sz && err == nil ==> ret0 == nil
+    ensures[fails]   err != nil ==> ioerr(err)
     ensures[prefix]  err == nil && ret0 != nil ==> livePrefix(l, ret0)
     // the bound holds afterwards unless everything is selected
     ensures[stop]    err == nil && ret0 != nil ==>
@@ -676,7 +686,7 @@ func FindBySize
                              gTotal[l] - sumSize(l, domain(ret0)) + gSize[l][o] >= sz
     loop 1
       invariant[nonnil]  offsets != nil && maxOffset == gNext[l]
-      invariant[cursor]  offset == message.OffsetOldest || offset >= 0
+      invariant[cursor]  offset == message.OffsetOldest || (offset >= 0 && offset <= gNext[l])
       invariant[sum]     total == gTotal[l] - sumSize(l, domain(offsets))
       invariant[prefix]  livePrefix(l, offsets)
       invariant[set]     total >= sz ==> (forall o int64 :: has(offsets, o) <==> gLive[l][o] && offset != message.OffsetOldest && o < offset)
@@ -823,7 +833,7 @@ func FindUpdates
                           gLive[l][o] && gLive[l][p] && o < p && gKey[l][o] == gKey[l][p] && gMicro[l][p] < micro(before) ==> has(ret0, o)
     loop 1
       invariant[nonnil]  offsets != nil && maxOffset == gNext[l] && keyOffset != nil
-      invariant[cursor]  offset == message.OffsetOldest || offset >= 0
+      invariant[cursor]  offset == message.OffsetOldest || (offset >= 0 && offset <= gNext[l])
       invariant[notnewer] forall o int64 :: scanned(l, o, ite(offset == message.OffsetOldest, 0, offset)) ==> gMicro[l][o] <= micro(before)
       invariant[tree]    treeLast(l, keyOffset, ite(offset == message.OffsetOldest, 0, offset))
       invariant[sel]     updatesSel(l, keyOffset, offsets, ite(offset == message.OffsetOldest, 0, offset))
@@ -854,7 +864,7 @@ func FindDeletes
     ensures[oldest]    err == nil ==> forall o int64, p int64 :: has(ret0, o) && gLive[l][p] && p < o ==> gKey[l][p] != gKey[l][o]
     loop 1
       invariant[nonnil]  offsets != nil && maxOffset == gNext[l] && keyOffset != nil
-      invariant[cursor]  offset == message.OffsetOldest || offset >= 0
+      invariant[cursor]  offset == message.OffsetOldest || (offset >= 0 && offset <= gNext[l])
       invariant[notnewer] forall o int64 :: scanned(l, o, ite(offset == message.OffsetOldest, 0, offset)) ==> gMicro[l][o] <= micro(before)
       invariant[tree]    treeFirst(l, keyOffset, ite(offset == message.OffsetOldest, 0, offset))
       invariant[sel]     deletesSel(l, keyOffset, offsets, ite(offset == message.OffsetOldest, 0, offset))
